@@ -101,6 +101,78 @@ class Ctx:
         self.notes.append(text)
 
 
+class AliasCtx:
+    """lets one property reuse the rule functions of another: every instance is reported under rule id `to` with the
+    original rule id kept as a key prefix (e.g. C05.D1:setcluster:.. -> C07.D6:C05.D1:setcluster:..)"""
+
+    def __init__(self, ctx, to, only=None):
+        self._c = ctx
+        self._to = to
+        self._only = only     # rule ids of the source module to forward (None = all)
+        self.F = ctx.F
+        self.prop = ctx.prop
+        self.tier = ctx.tier
+
+    def _ok(self, rule):
+        return self._only is None or rule in self._only
+
+    def rule(self, rid, text, exhaustive=False):
+        pass
+
+    site = staticmethod(Ctx.site)
+
+    def holds(self, rule, key, site=None, detail="", extra=None):
+        if self._ok(rule):
+            self._c.holds(self._to, "%s:%s" % (rule, key), site, detail, extra)
+
+    def violation(self, rule, key, site=None, detail="", path=None, extra=None):
+        if self._ok(rule):
+            self._c.violation(self._to, "%s:%s" % (rule, key), site, detail, path, extra)
+
+    def lost(self, rule, key, detail=""):
+        if self._ok(rule):
+            self._c.lost(self._to, "%s:%s" % (rule, key), detail)
+
+    def info(self, rule, key, detail="", site=None):
+        if self._ok(rule):
+            self._c.info(self._to, "%s:%s" % (rule, key), detail, site)
+
+    def check(self, cond, rule, key, site=None, ok="", bad="", path=None, extra=None):
+        if cond:
+            self.holds(rule, key, site, ok, extra)
+        else:
+            self.violation(rule, key, site, bad, path, extra)
+        return cond
+
+    def floor(self, rule, what, found, minimum):
+        if found < minimum:
+            self.lost(rule, "floor:%s" % what, "matched %d instance(s) of %s, expected at least %d" % (found, what, minimum))
+            return False
+        return True
+
+    def analysed(self, *bodies):
+        self._c.analysed(*bodies)
+
+    def note(self, text):
+        self._c.note(text)
+
+    @property
+    def paths(self):
+        return self._c.paths
+
+    @paths.setter
+    def paths(self, v):
+        self._c.paths = v
+
+    @property
+    def call_sites(self):
+        return self._c.call_sites
+
+    @call_sites.setter
+    def call_sites(self, v):
+        self._c.call_sites = v
+
+
 def load_known():
     if not os.path.exists(KNOWN):
         return []
